@@ -93,7 +93,7 @@ Proof.
   intros [Hnd _] Hi. split; [apply nth_In; exact Hi | apply index_of_str_nth_nodup; assumption].
 Qed.
 
-Theorem while_correction_sem : while_correction_sem_stmt.
+Theorem while_correction_sem_main : while_correction_sem_stmt.
 Proof.
   unfold while_correction_sem_stmt. intros r Hwf Hpwf.
   pose proof (wf_rel_shape r Hwf) as Hs.
@@ -177,4 +177,4 @@ Proof.
   - unfold rel_pwf, pwf, mwf. cbn [rmat]. repeat constructor; try discriminate; cbn; auto.
 Qed.
 
-Print Assumptions while_correction_sem.
+Print Assumptions while_correction_sem_main.
